@@ -138,6 +138,7 @@ def stepCore (d : DState) (line : String) : DState × String :=
         -- the directory is replaced by the one the pinned release wrote for the same history (C17)
         let s := d.store.apply (.restart (rest.contains "lazy"))
         ({ d with store := s, born := s.blobs.map (fun b => (b.id, d.now)) }, "ok")
+      | "crashsweep" :: _ => (d, "sweep ok")   -- crash states are explored on copies; the live storage goes on
       | "toolsweep" :: _ =>
         let s := d.store.apply (.restart false)
         ({ d with store := s, born := s.blobs.map (fun b => (b.id, d.now)) }, "sweep ok")
